@@ -77,6 +77,19 @@ Definition replace_eqb (g : gate cparam) (ms : list modifier) (ps : list cparam)
       && res_eqb (obind (replace_params cfree ps g) (apply_chain cfree ms)) ob2
   end.
 
+(* "the gate built with the new parameters": [ob] is what the chain returns on a FRESHLY constructed base gate
+   (CustomGateDefinition.__call__ / the built-in factory at the new parameters); the model's counterpart is
+   replace_params on the old base gate, which keeps name, qubit count and the is_hermitian flag *)
+Definition fresh_eqb (g : gate cparam) (ms : list modifier) (ps : list cparam) (ob : option observed) : bool :=
+  res_eqb (obind (replace_params cfree ps g) (apply_chain cfree ms)) ob.
+
+(* calls [a], then replace_params, then calls [b]:  b(a(g).replace_params(ps))  against the model, and
+   b(a(fresh gate)) against the model's  b(a(g.replace_params(ps))) *)
+Definition custom_eqb (g : gate cparam) (a : list modifier) (ps : list cparam) (b : list modifier)
+  (obG obF : option observed) : bool :=
+  res_eqb (obind (obind (apply_chain cfree a g) (replace_params cfree ps)) (apply_chain cfree b)) obG
+  && res_eqb (obind (obind (replace_params cfree ps g) (apply_chain cfree a)) (apply_chain cfree b)) obF.
+
 (* ------------------------------------------------------------ matrices over the Gaussian rationals *)
 Definition gqmat : Type := list (list (Q * Q)).
 Definition lit_mat (L : gqmat) : Mat GQring :=
